@@ -70,6 +70,11 @@ def call_function(X, ins, key, argv, argops):
     w = X.w
     prog = w.prog
     callsite_assertions(X, ins, key, argv, argops)
+    # ghost call counter per method / function name (ncalls_<Name>), readable in contracts as ghost(ncalls_<Name>)
+    if X.top and X.contract is not None and 'countcalls' in X.contract['flags']:
+        nm = key.rsplit('.', 1)[-1]
+        gk_ = ('ghost', 'ncalls_' + nm, I)
+        X.heap.set(gk_, X.heap.get(gk_) + 1)
     c = V.contracts['funcs'].get(key)
     if c is not None and 'inline' not in c['flags']:
         return contract_call(X, ins, key, c, argv)
